@@ -21,6 +21,7 @@ var (
 	DatasetNotFoundErr      error = errors.New("Dataset not found")
 	DatasetAlreadyExistsErr error = errors.New("Dataset already exists")
 	InvalidDatasetErr       error = errors.New("Dataset dimension, partition count and replication factor must be at least 1")
+	UnknownSpaceErr         error = errors.New("Unknown space")
 )
 
 type DatasetManager struct {
@@ -107,6 +108,11 @@ func (this *DatasetManager) Get(id uuid.UUID) (*Dataset, error) {
 func (this *DatasetManager) Create(ctx context.Context, dataset *pb.Dataset) (*Dataset, error) {
 	if dataset.GetDimension() < 1 || dataset.GetPartitionCount() < 1 || dataset.GetReplicationFactor() < 1 {
 		return nil, InvalidDatasetErr
+	}
+	// The space selects the distance implementation of every partition's index.
+	// A value outside the enum would leave the index without one.
+	if _, known := pb.Space_name[int32(dataset.GetSpace())]; !known {
+		return nil, UnknownSpaceErr
 	}
 
 	ctx, cancelCtx := context.WithTimeout(ctx, 1*time.Second)
